@@ -210,6 +210,14 @@ def poll_thread_startup(ctx):
         raise AnchorMissing('writeInitParams / initialReads / first polls not found in the poll thread', violation='frappy.modulebase.Module.__pollThread:writes, initial reads and first polls present')
     ctx.check(all(cfg.dominates(wi, i) for i in ir + fp), f'{pt.qualname}:configured writes first', pt.node,
               'writeInitParams dominates initialReads and the first polls', 'a read/poll can happen before the configured values were written', pt)
+    # ... of ALL modules of the thread: the loop writing the configured values has ended before anything is polled (a fused
+    # loop "write, read, poll" per module polls the first module before the second one's configured values are written)
+    wloops = {id(a) for c in calls_in(pt.node) if call_attr(c) == 'writeInitParams' for a in ancestors(c) if isinstance(a, ast.For)}
+    for c in [c for c in calls_in(pt.node) if call_attr(c) == 'callPollFunc' and not any(a is steady[0] for a in ancestors(c))]:
+        fused = [a for a in ancestors(c) if id(a) in wloops]
+        ctx.check(not fused, f'{pt.qualname}:all configured writes precede the first poll', c, 'the first polls are outside the loop that writes the configured values',
+                  f'`{src(c)}` runs inside the same loop as writeInitParams: the first module of the thread is polled before the configured values of the '
+                  'following modules have been written to the hardware', pt)
     mods_param = pt.node.args.args[1].arg if len(pt.node.args.args) > 1 else 'modules'
     for c in calls_in(pt.node):
         if call_attr(c) == 'writeInitParams':
